@@ -209,10 +209,21 @@ def gen_orders(rng, quick):
             if op[0] == "xfer":
                 op = ["xfer", _xfer(rng, chans, op[1], l2, 3000)]
             elif op[0] == "early":
-                # two small writes per link by the side whose peer has no sink yet
+                # writes by the side whose peer has no sink yet: two small ones, or (op[3]) that many frames - more than
+                # the replenishment threshold, fewer than the receive queue holds
                 x = {str(i): [[], []] for i in op[1]}
                 for i in op[1]:
-                    x[str(i)][op[2]] = [[0, rng.randint(3, 12)], [0.05, rng.randint(1, 5)]]
+                    if len(op) > 3:
+                        cap = _cap(chans[i]["smfs"] if op[2] == 0 else chans[i]["cmfs"], l2[1 - op[2]])
+                        x[str(i)][op[2]] = [[0, cap * op[3]]]
+                    else:
+                        x[str(i)][op[2]] = [[0, rng.randint(3, 12)], [0.05, rng.randint(1, 5)]]
+                op = ["xfer", x]
+            elif op[0] == "bulk":
+                x = {str(i): [[], []] for i in op[1]}
+                for i in op[1]:
+                    cap = _cap(chans[i]["smfs"] if op[2] == 0 else chans[i]["cmfs"], l2[1 - op[2]])
+                    x[str(i)][op[2]] = [[0, cap * op[3] + 7]]
                 op = ["xfer", x]
             elif op[0] == "refused":
                 free = [c for c in range(1, 31) if c not in chs]
@@ -243,6 +254,12 @@ def gen_orders(rng, quick):
             script = [["open", i] for i in range(n)] + [["early", list(range(n)), 1 - late]] + [["attach", [[i, late]]] for i in order] \
                      + [["xfer", list(range(n))]] + [["close", [[i, late]]] for i in range(n)]
             mk(n, script, "late-sink")
+            out[-1]["late_sink"] = late
+    # ... also when more frames than the replenishment threshold (16) arrive before the sink exists, and the transfer goes
+    # on for many credit rounds afterwards (the receiver's ledger must count what it queued)
+    for late in (0, 1):
+        for nearly in (17, 24, 31):
+            mk(1, [["open", 0], ["early", [0], 1 - late, nearly], ["attach", [[0, late]]], ["bulk", [0], 1 - late, 60], ["close", [[0, late]]]], "late-sink")
             out[-1]["late_sink"] = late
     # the session itself
     for side in (0, 1):
